@@ -238,6 +238,13 @@ func (dw *DiskWriter) requestAsyncFileData(p, dest string, fi os.FileInfo, st *t
 		}); err != nil {
 			return err
 		}
+		if m := os.FileMode(st.Mode); m&(os.ModeSetuid|os.ModeSetgid) != 0 {
+			// writing the content as an unprivileged user makes the kernel
+			// drop setuid/setgid: apply the mode again
+			if err := os.Chmod(dest, m); err != nil {
+				return errors.WithStack(err)
+			}
+		}
 		return chtimes(dest, st.ModTime) // TODO: parent dirs
 	})
 }
